@@ -107,16 +107,16 @@ def gen_ok_crate(li_lits, loc_lits, subs):
         chunk = li_lits[i:i + 7]
         args = ", ".join('"%s"' % s for s in chunk)
         tc = "," if (i // 7) % 2 else ""
-        src.append("    { let names = [%s]; match catch_unwind(AssertUnwindSafe(|| langids![%s%s])) { Ok(v) => { if v.len() != names.len() { println!(\"{}\", json!({\"op\":\"macro\",\"m\":\"langids\",\"lit\":[],\"out\":{\"k\":\"panic\"},\"st\":[],\"rt_eq\":false})); } for (x, nm) in v.into_iter().zip(names.iter()) { li(\"langids\", nm, Ok(x)); } } Err(e) => li(\"langids\", names[0], Err(e)) } }"
+        src.append("    { let names = [%s]; match catch_unwind(AssertUnwindSafe(|| { let v: Vec<LanguageIdentifier> = langids![%s%s]; v })) { Ok(v) => { if v.len() != names.len() { println!(\"{}\", json!({\"op\":\"macro\",\"m\":\"langids\",\"lit\":[],\"out\":{\"k\":\"panic\"},\"st\":[],\"rt_eq\":false})); } for (x, nm) in v.into_iter().zip(names.iter()) { li(\"langids\", nm, Ok(x)); } } Err(e) => li(\"langids\", names[0], Err(e)) } }"
                    % (args, args, tc))
-        src.append("    { let names = [%s]; match catch_unwind(AssertUnwindSafe(|| langid_slice![%s%s].to_vec())) { Ok(v) => { for (x, nm) in v.into_iter().zip(names.iter()) { li(\"langid_slice\", nm, Ok(x)); } } Err(e) => li(\"langid_slice\", names[0], Err(e)) } }"
+        src.append("    { let names = [%s]; match catch_unwind(AssertUnwindSafe(|| { let s: &[LanguageIdentifier] = langid_slice![%s%s]; s.to_vec() })) { Ok(v) => { for (x, nm) in v.into_iter().zip(names.iter()) { li(\"langid_slice\", nm, Ok(x)); } } Err(e) => li(\"langid_slice\", names[0], Err(e)) } }"
                    % (args, args, tc))
         n += 2 * len(chunk)
     for i in range(0, len(loc_lits), 7):
         chunk = loc_lits[i:i + 7]
         args = ", ".join('"%s"' % s for s in chunk)
         tc = "," if (i // 7) % 2 else ""
-        src.append("    { let names = [%s]; match catch_unwind(AssertUnwindSafe(|| locales![%s%s])) { Ok(v) => { for (x, nm) in v.into_iter().zip(names.iter()) { loc(\"locales\", nm, Ok(x)); } } Err(e) => loc(\"locales\", names[0], Err(e)) } }"
+        src.append("    { let names = [%s]; match catch_unwind(AssertUnwindSafe(|| { let v: Vec<Locale> = locales![%s%s]; v })) { Ok(v) => { for (x, nm) in v.into_iter().zip(names.iter()) { loc(\"locales\", nm, Ok(x)); } } Err(e) => loc(\"locales\", names[0], Err(e)) } }"
                    % (args, args, tc))
         n += len(chunk)
     src.append("}")
